@@ -291,6 +291,16 @@ def scalar_unbytify(ctx, b, data, reverse, tag):
             ctx.check(got == want, "unbytify/differs-from-integer-reference/" + tag,
                       "unbytify differs from int.from_bytes", lambda: {"bytes": bytes(data).hex()[:80], "reverse": reverse,
                                                                       "got": got, "want": want})
+    # the statement read as an expression over a buffer b of the caller's own: bytify(unbytify(b), len(b)) == b
+    mine = bytearray(data)
+    ok, v = guard(ctx, "unbytify", b.unbytify, mine, reverse)
+    if ok:
+        ok2, back = guard(ctx, "bytify", b.bytify, v, len(mine), reverse)
+        if ok2:
+            ctx.check(bytes(back) == bytes(mine), "bytify/not-inverse-of-unbytify/callers-buffer/" + tag,
+                      "for a bytearray b: bytify(unbytify(b, reverse=%s), len(b), reverse=%s) != b" % (reverse, reverse),
+                      lambda: {"b_before": bytes(data).hex()[:80], "b_after": bytes(mine).hex()[:80], "reverse": reverse,
+                               "got": bytes(back).hex()[:80]})
     ok, got = guard(ctx, "bytify", b.bytify, want, len(data), reverse)
     if ok:
         ctx.check(bytes(got) == bytes(data), "bytify/not-inverse-of-unbytify/" + tag,
